@@ -95,6 +95,7 @@ StopRestartTok(fix) ==
 Codes3 == {[a |-> <<x>>, b |-> <<y>>, c |-> <<z>>] : x, y, z \in {0, 1}}
 
 WorkloadsDag == {Chain3(c, AllFixed) : c \in Codes3}
+                  \cup {Chain3([a |-> <<0>>, b |-> <<9>>, c |-> <<0>>], AllFixed)}      \* b's process is killed (no marker, stale pid file)
                   \cup {Diamond([a |-> <<0>>, b |-> <<x>>, c |-> <<y>>, d |-> <<0>>], AllFixed) : x, y \in {0, 1}}
 WorkloadsTok == {Tok(3, 2, 2, 1, Ok({"a", "b", "c"}), AllFixed), Tok(3, 1, 1, 3, Ok({"a", "b", "c"}), AllFixed),
                  Tok(1, 1, 1, 1, Ok({"a", "b", "c"}), AllFixed),
@@ -102,6 +103,7 @@ WorkloadsTok == {Tok(3, 2, 2, 1, Ok({"a", "b", "c"}), AllFixed), Tok(3, 1, 1, 3,
                  Tok2(1, 1, 1, AllFixed), Tok2(2, 1, 2, AllFixed), TokDep(AllFixed), TwoTok(AllFixed)}
 WorkloadsSub == {Dup(AllFixed), Resubmit(AllFixed), ResubmitEarly(AllFixed)}
 WorkloadsRestart == {Rerun(Ok({"a", "b"}), AllFixed), Rerun([a |-> <<1, 0>>, b |-> <<0>>], AllFixed),
+                     Rerun([a |-> <<9, 0>>, b |-> <<0>>], AllFixed),
                      KillRestart(AllFixed), KillRestartTok(AllFixed)}
 WorkloadsStop == {StopRestart(Ok({"a", "b"}), AllFixed), StopRestart([a |-> <<1, 0>>, b |-> <<0>>], AllFixed),
                   StopRestartTok(AllFixed)}
